@@ -565,14 +565,27 @@ def extender_overlap_specs(draw) -> dict:
             hits.pop(name)
             continue
         seen.add((begin, size))
-        if begin + size > length:
-            parts = [[begin, length], [0, begin + size - length]]
-            if strand == -1:
-                parts.reverse()
-            loc = {"parts": parts, "strand": strand, "kind": "span"}
-        else:
-            loc = {"parts": [[begin, begin + size]], "strand": strand, "kind": "simple"}
-        out_genes.append({"name": name, "loc": loc})
+        # exons: the whole gene, or (genes of 9 bases and more, one time in three) 2-3 exons around 1-2 base introns
+        exons = [[0, size]]
+        if size >= 9 and draw(st.integers(0, 2)) == 0:
+            cut = draw(st.integers(3, size - 5))
+            intron = draw(st.integers(1, 2))
+            exons = [[0, cut], [cut + intron, size]]
+            if size - (cut + intron) >= 8 and draw(st.booleans()):
+                cut2 = draw(st.integers(cut + intron + 3, size - 4))
+                exons = [[0, cut], [cut + intron, cut2], [cut2 + 1, size]]
+        parts = []
+        for low, high in exons:
+            first = (begin + low) % length if circular else begin + low
+            if first + (high - low) > length:
+                parts.extend([[first, length], [0, first + (high - low) - length]])
+            else:
+                parts.append([first, first + (high - low)])
+        crossing = begin + size > length
+        if strand == -1:
+            parts.reverse()
+        kind = "span" if crossing else ("simple" if len(parts) == 1 else "multi")
+        out_genes.append({"name": name, "loc": {"parts": parts, "strand": strand, "kind": kind}})
     rules_spec = [{"name": "r0", "conditions": ["id", "a"], "superiors": [], "extenders": ["id", "b"], "cutoff": cutoff,
                    "neighbourhood": draw(st.sampled_from([0, 2]))}]
     return {"L": length, "circular": circular, "genes": out_genes, "hits": hits, "rules": rules_spec}
